@@ -128,9 +128,7 @@ func getSchemaSets(newSchemas []*client.SchemaDescription) [][]*client.SchemaDes
 			if deleteI {
 				old := schema.relations
 				schema.relations = make([]string, len(schema.relations)-1)
-				if i > 0 {
-					copy(schema.relations, old[:i-1])
-				}
+				copy(schema.relations, old[:i])
 				copy(schema.relations[i:], old[i+1:])
 				schemasWithRelations[schema.name] = schema
 			}
